@@ -1169,7 +1169,7 @@ fn reg_case(i: usize, seed: u64, acc: &mut Acc, which: &str) {
 }
 
 pub fn run_c06_graph_level(tier: Tier, seed: u64, acc_out: &mut Acc) {
-  let n = tier.pick(24000, 800000);
+  let n = tier.pick(24000, 4000000);
   let acc = par_run(n, |i, acc| reg_case(i, seed, acc, "C06"));
   acc_out.merge(acc);
 }
@@ -1292,7 +1292,7 @@ pub fn run_c07(tier: Tier, seed: u64) -> i32 {
   rep.floor("package_dep_sets_compared", 500);
   rep.floor("jsr_specifiers_failed:unknown-export", 50);
   rep.floor("url_roundtrips", 1000);
-  let n = tier.pick(24000, 800000);
+  let n = tier.pick(24000, 4000000);
   let mut acc = par_run(n, |i, acc| reg_case(i, seed, acc, "C07"));
   url_roundtrip(&mut acc, seed, tier.pick(20_000, 400_000));
   rep.finish(acc)
